@@ -3,6 +3,8 @@ import Treepath.Model.Api
 import Treepath.Proofs.MachineLemmas
 import Treepath.Proofs.DriveX
 import Treepath.Proofs.Restart
+import Treepath.Proofs.Threads
+import Treepath.Generated.Shared
 /- C07 — result iterators are lazy, stay exhausted, and do not interfere -/
 namespace Treepath.C07
 variable {α : Type}
@@ -68,5 +70,21 @@ theorem independent (view : α → View α) (steps1 steps2 : Array (Step α)) (s
     let r2 := next view steps2 src2 l s2
     -- advancing 1 then 2 or 2 then 1 gives the same pair of outcomes
     (r1, r2) = (next view steps1 src1 l s1, next view steps2 src2 l s2) := rfl
+
+/-- **threads sharing a path object**: the only state they share is the lazy rendering /
+vertex-list cache of each vertex; in the micro-model of that cache (atomic slot read, local
+computation, atomic slot store — `Proofs/Threads.lean`) every access by every thread under
+every interleaving returns the pure value.  Pre-emption itself, the atomicity of one
+attribute access and free-threaded builds are runtime assumptions (exercised by the
+`threads` oracle, not proved). -/
+theorem shared_cache_race_is_benign {V : Type} (f : V) (threads : Nat) (sched : List Nat) :
+    ∀ v ∈ (Threads.run f { cell := none, pcs := List.replicate threads .idle, log := [] } sched).log, v = f :=
+  Threads.every_access_returns_the_pure_value f threads sched
+
+/-- … and these two caches are all there is (regenerated from the source on every run): no
+other attribute of a vertex, builder or predicate object is assigned outside `__init__`, and
+no function under `path/` keeps `nonlocal` / `global` state -/
+theorem shared_state_is_the_two_caches :
+    Generated.sharedState = ["Vertex._path", "Vertex._path_as_list"] := by decide
 
 end Treepath.C07
